@@ -7,6 +7,8 @@ import typing
 from typing import Annotated, Any, Literal, Optional
 
 from ovld import Ovld
+from ovld.dependent import Equals
+from ovld.types import HasMethod
 from ovld.types import normalize_type
 
 
@@ -15,7 +17,7 @@ class B(A): ...
 class C: ...
 
 
-VALUES = [A(), B(), C(), 1, True, "a", None, [A()], [1], (1, "a"), 2.5, 2, "b", A, list[A]]
+VALUES = [A(), B(), C(), 1, True, "a", None, [A()], [1], (1, "a"), 2.5, 2, "b", A, list[A], {"k": A()}, {"k": 1}, {}]
 
 GLOBALS_A = {"Thing": A, "typing": typing}
 GLOBALS_C = {"Thing": C, "typing": typing}
@@ -54,6 +56,15 @@ GROUPS = {
     "list_generic": [list[A], typing.List[A]],
     "literal_reordered": [Literal[1, 2], Literal[2, 1]],
     "literal_reordered_mixed": [Literal[1, "a"], Literal["a", 1]],
+    "literal_interleaved_types": [Literal[1, 2, "a"], Literal[1, "a", 2], Literal[2, 1, "a"]],
+    "string_inside_dict_generic": [dict[str, A], dict[str, "Thing"], "dict[str, Thing]"],
+    "string_inside_list_generic": [list[A], list["Thing"], "list[Thing]"],
+    # ovld's own type objects inside the standard spellings
+    "optional_of_protocol_type": [Optional[HasMethod["upper"]], HasMethod["upper"] | None, None | HasMethod["upper"], typing.Union[HasMethod["upper"], None]],
+    "optional_of_value_type": [Optional[Equals[1]], Equals[1] | None, None | Equals[1], Optional[Literal[1]]],
+    "union_with_value_type": [typing.Union[A, Equals["a"]], A | Equals["a"], Equals["a"] | A, (A, Equals["a"]), A | Literal["a"]],
+    "nested_union_with_literal": [typing.Union[A, typing.Union[float, Literal["a"]]], (A, (float, Literal["a"])), A | float | Literal["a"], (A, float, Literal["a"])],
+    "nested_tuple_plain": [typing.Union[A, int, str], (A, (int, str)), ((A, int), str)],
 }
 
 
@@ -77,7 +88,10 @@ def behaviour(ann, comp, glb):
     ov = Ovld(name="f")
     for c in comp:
         ov.register(c)
-    ov.register(fn_with(ann, glb))
+    try:
+        ov.register(fn_with(ann, glb))
+    except Exception as e:  # a spelling that cannot even be registered differs from one that can
+        return [f"REGISTRATION:{type(e).__name__}:{str(e)[:40]}"] * len(VALUES)
     out = []
     for v in VALUES:
         try:
